@@ -32,7 +32,7 @@ func isTokenPos(t types.Type) bool {
 	return p == "go/token" && n == "Pos" && !isPtr
 }
 
-func (e *Env) RCursor() {
+func (e *Env) RCursor(withFileOrder bool) {
 	pkg := e.Prog.Pkg(load.PkgDecorator)
 	info := pkg.TypesInfo
 	c := e.Sib.Ctx[load.PkgDecorator]
@@ -211,7 +211,9 @@ func (e *Env) RCursor() {
 	e.Run.Floor("R-CURSOR", "line table stores", nLines, 5)
 	e.Run.Floor("R-CURSOR", "comment list stores", nComments, 6)
 	e.lineBreaksAdvance(c)
-	e.restoreFileOrder(c)
+	if withFileOrder {
+		e.restoreFileOrder(c)
+	}
 	e.fileSizeCovers(c)
 }
 
